@@ -49,7 +49,7 @@ fn host_need_bound(c: &SeqCase) -> u64 {
 
 /// l1_short image whose L1 table cannot be extended in place: the entries the virtual size needs
 /// occupy more clusters than the table the header describes
-fn l1_short_overflows(c: &SeqCase) -> bool {
+pub fn l1_short_overflows(c: &SeqCase) -> bool {
     match &c.layers[0] {
         crate::case::LayerSpec::Built(s) if s.l1_short => {}
         _ => return false,
